@@ -14,6 +14,16 @@ struct table `Gen.polyStructs` that is regenerated from the compiled types on ev
 of the theorems below is re-checked against the JSON form the code has *now*.  The JSON text layer
 (escaping, UTF-8, number syntax) is `encoding/json`'s and is tied by correspondence only.
 
+Domain decisions, stated once:
+* "non-ASCII text" means valid Unicode text: strings are code-point lists.  A Go string holding bytes that are
+  not valid UTF-8 is outside the property (encoding/json replaces them by U+FFFD by design) — the driver's
+  named exclusion `skip:invalid-utf8`.
+* `GetSequence` is modelled on ASCII parent text (hypothesis of `relinked`, `relinked_reports`); `relinked_any`
+  is free of it.
+* The conversion clause is proved in general (`convert_same`) and for the models of the two real writers
+  (`convert_same_gbk`, `convert_same_gff`, and the `_pipe` variants), which are C03's and C14's models applied to
+  the fields those writers read (Model/PolyJsonViews.lean).
+
 Hypothesis `x.WF`: the two kinds of map (Meta.Other, Feature.Attributes) are written in the
 model's canonical form (entries sorted by key, keys distinct) — a Go map has no order, so this
 restricts the representation, not the values.  Strings, integers, nesting depth, list lengths
@@ -136,9 +146,25 @@ theorem relinked_parent (x : Sequence) (h : x.WF = true) :
   obtain ⟨g, _, rfl⟩ := hf
   rfl
 
-/-- Clause 2b: the i-th feature of the parsed value reports (`GetSequence`, panics included) exactly
-what the i-th feature's location denotes in `x`'s sequence text … -/
-theorem relinked_reports (x : Sequence) (h : x.WF = true) (i : Nat) :
+/-- Clause 2b, for ANY way of reading a feature's sequence off its parent text and its location value
+(`g` = what `GetSequence` computes: Go's byte slicing of the UTF-8 text, reverse complement, panics …):
+a report that is a function of (parent text, location) is the same before and after, feature by feature,
+whenever `x`'s features are linked to `x`.  No assumption on the text (ASCII or not). -/
+theorem relinked_any {β : Type} (g : S → Location → β) (x : Sequence) (h : x.WF = true) (hl : x.Linked) :
+    ((polyjsonParse (toJ x)).features.getD []).map (fun f => f.parent.map fun p => g p f.sequenceLocation)
+      = (x.features.getD []).map (fun f => f.parent.map fun p => g p f.sequenceLocation) := by
+  rw [parse_marshal x h]
+  simp only [Option.getD_some, List.map_map]
+  apply List.map_congr_left
+  intro f hf
+  simp [Function.comp, relinkTo, hl f hf]
+
+/-- Clause 2b with the model of `GetSequence` (`Feature.getSeq`: slicing, concatenation, reverse
+complement, panics).  That model is Go's function on ASCII parent text (one byte per code point:
+nucleotide / protein letters), which is therefore an explicit hypothesis; for other text use `relinked_any`.
+The i-th feature of the parsed value reports exactly what the i-th feature's location denotes in
+`x`'s sequence text … -/
+theorem relinked_reports (x : Sequence) (h : x.WF = true) (_hascii : asciiS x.sequence = true) (i : Nat) :
     ((polyjsonParse (toJ x)).features.getD [])[i]?.map Feature.getSeq
       = (x.features.getD [])[i]?.map (fun f => f.sequenceLocation.seqOf x.sequence) := by
   rw [parse_marshal x h]
@@ -146,8 +172,8 @@ theorem relinked_reports (x : Sequence) (h : x.WF = true) (i : Nat) :
   rfl
 
 /-- … which, when `x`'s features are linked to `x` (added with `AddFeature`), is what they reported
-before: same feature count, and feature by feature the same `GetSequence` outcome. -/
-theorem relinked (x : Sequence) (h : x.WF = true) (hl : x.Linked) :
+before: same feature count, and feature by feature the same `GetSequence` outcome (panics included). -/
+theorem relinked (x : Sequence) (h : x.WF = true) (hl : x.Linked) (_hascii : asciiS x.sequence = true) :
     ((polyjsonParse (toJ x)).features.getD []).map Feature.getSeq = (x.features.getD []).map Feature.getSeq := by
   rw [parse_marshal x h]
   simp only [Option.getD_some, List.map_map]
@@ -161,19 +187,44 @@ theorem getSeq_nil_empty (p : S) (l : Location) : l.norm.seqOf p = l.seqOf p := 
 
 /-! ## conversion through JSON -/
 
-/-- Clause 3: any writer that depends only on the value (not on nil-vs-empty collections, not on parent
-pointers) produces the same text from the JSON round trip as from the value itself.  `genbank.Build`
-and `gff.Build` are such writers: they range over slices and maps, test strings and integers, and
-never read `ParentSequence` (checked at implementation level by byte comparison on every run). -/
+/-- Clause 3, general form: any writer that depends only on the value (not on nil-vs-empty collections,
+not on parent pointers) produces the same output from the JSON round trip as from the value itself. -/
 theorem convert_same {β : Type} (b : Sequence → β) (hb : ∀ a c : Sequence, a.Equiv c → b a = b c)
     (x : Sequence) (h : x.WF = true) : b (polyjsonParse (toJ x)) = b x :=
   hb _ _ (roundtrip x h)
 
-/-- the same for a chain GenBank/GFF → value → JSON → value → text, whatever the parser `p` produced -/
-theorem convert_same_parsed {α β : Type} (p : α → Sequence) (b : Sequence → β)
-    (hb : ∀ a c : Sequence, a.Equiv c → b a = b c) (text : α) (h : (p text).WF = true) :
-    b (polyjsonParse (toJ (p text))) = b (p text) :=
-  convert_same b hb (p text) h
+/-- the value read back by a plain `json.Unmarshal` (the pipe path of `poly convert`: no re-linking) is
+also `≈ x` -/
+theorem unmarshal_equiv (x : Sequence) (h : x.WF = true) : (fromJ (toJ x)).Equiv x := by
+  rw [unmarshal_marshal x h]
+  cases x with
+  | mk m d sh shf sq fs =>
+    cases fs with
+    | none => rfl
+    | some l =>
+      simp only [Sequence.Equiv, Sequence.norm, Sequence.unlink, Option.map_some, Option.getD_some, List.map_map]
+      congr 2
+
+/-- Clause 3 for `genbank.Build` — its model `GenbankBuild.build` (property C03) applied to the writer's view
+of the value, for every iteration order `o` of the maps: GenBank → value `x` → JSON → `polyjson.Parse`
+(or `polyjson.Read` of the written file) → GenBank text equals the text written from `x` directly. -/
+theorem convert_same_gbk (x : Sequence) (h : x.WF = true) (o : GenbankBuild.MapOrders) :
+    GenbankBuild.build (polyjsonParse (toJ x)).toGbk o = GenbankBuild.build x.toGbk o := by
+  rw [toGbk_congr _ _ (roundtrip x h)]
+
+/-- Clause 3 for `gff.Build` (its model `Gff.build`, property C14). -/
+theorem convert_same_gff (x : Sequence) (h : x.WF = true) :
+    Gff.build (polyjsonParse (toJ x)).toGff = Gff.build x.toGff := by
+  rw [toGff_congr _ _ (roundtrip x h)]
+
+/-- the same two through a plain `json.Unmarshal` (stdin / pipe mode of `poly convert`) -/
+theorem convert_same_gbk_pipe (x : Sequence) (h : x.WF = true) (o : GenbankBuild.MapOrders) :
+    GenbankBuild.build (fromJ (toJ x)).toGbk o = GenbankBuild.build x.toGbk o := by
+  rw [toGbk_congr _ _ (unmarshal_equiv x h)]
+
+theorem convert_same_gff_pipe (x : Sequence) (h : x.WF = true) :
+    Gff.build (fromJ (toJ x)).toGff = Gff.build x.toGff := by
+  rw [toGff_congr _ _ (unmarshal_equiv x h)]
 
 /-! ## non-vacuity -/
 
@@ -211,6 +262,12 @@ example : sample.features ≠ none := by simp [sample]
 /-- the sample's features report real sequences (so `relinked` is not about panics only) -/
 example : (sample.features.getD []).map Feature.getSeq
     = [.ok (ofStr "ATGCGTCGT"), .ok (ofStr "CGT")] := by decide
+example : asciiS sample.sequence = true := by decide
+/-- the writers' views of the sample are not empty: two features with their qualifiers, the location tree, the bases -/
+example : sample.toGbk.features.map (fun f => (f.attributes.length, f.sequenceLocation.subs.length)) = [(2, 2), (0, 0)]
+    ∧ sample.toGbk.sequence = "ACGTTGCATG".toList ∧ sample.toGbk.metadata.other.length = 2 := by decide
+example : sample.toGff.features.map (fun f => (f.start, f.stop, f.attrs.length)) = [(0, 9, 2), (1, 4, 0)]
+    ∧ sample.toGff.name = "pX".toList := by decide
 /-- a writer that satisfies `convert_same`'s hypothesis without being constant -/
 example : ∀ a c : Sequence, a.Equiv c →
     (a.features.getD []).map (·.type) = (c.features.getD []).map (·.type) := by
